@@ -259,7 +259,7 @@ func runC02(r *Run) {
 				switch {
 				case target == "SetBalance":
 					r.Check(owner == setAcc || owner == delAcc, "R1", inst, where, "SetBalance called from SetAccount/DeleteAccount", "SetBalance (mint/burn of the EVM denom) is called from "+fnID(owner))
-				case fnID(owner) == "(*x/evm/statedb.StateDB).Commit":
+				case fnID(owner) == "(*x/evm/statedb.StateDB).Commit" || fnID(owner) == "(*x/evm/statedb.StateDB).commit":
 					r.OK("R1", inst, where, "StateDB.Commit")
 				case !sc.S.Has(fn):
 					r.OK("R1", inst, where, "caller is outside consensus scope (query/simulation/dead code)")
@@ -282,7 +282,7 @@ func runC02(r *Run) {
 		}
 		nStateful++
 		isCommit := isCallMatching(func(ci CallInfo) bool {
-			return ci.Name == "Commit" && ci.Recv == "StateDB" && errHandled(ci.Instr)
+			return isFlushCall(ci) && errHandled(ci.Instr)
 		})
 		isHandler := func(in ssa.Instruction) bool {
 			for _, h := range m.Handlers {
@@ -299,7 +299,7 @@ func runC02(r *Run) {
 	r.Floor("R2", "wired stateful precompiles", nStateful, 4)
 
 	// ---------- R3 ----------
-	if commit, ok := P.FnOK("(*x/evm/statedb.StateDB).Commit"); ok {
+	if commit, ok := commitBodyFn(P); ok {
 		n := 0
 		eachCall(commit, func(ci CallInfo) {
 			if ci.Name == "SetAccount" && ci.Invoke {
@@ -307,7 +307,7 @@ func runC02(r *Run) {
 				sl := backSlice(argN(ci.Instr, 2))
 				okAcc := sl.HasField("stateObject", "account")
 				okDirty := backSlice(argN(ci.Instr, 1)).HasCall(func(c CallInfo) bool { return c.Name == "sortedDirties" }) || sl.HasCall(func(c CallInfo) bool { return c.Name == "sortedDirties" })
-				r.Check(okAcc && okDirty && errHandled(ci.Instr), "R3", fnID(commit)+"#writes-cached-account", P.Pos(instrPos(ci.Instr)), "Commit passes each dirty object's cached account to SetAccount",
+				r.Check(okAcc && okDirty && errHandled(ci.Instr), "R3", commitInstID+"#writes-cached-account", P.Pos(instrPos(ci.Instr)), "Commit passes each dirty object's cached account to SetAccount",
 					"premise changed: StateDB.Commit no longer hands the cached account of every journal-dirty object to Keeper.SetAccount; rule R4 is not meaningful on this tree")
 			}
 		})
@@ -336,7 +336,7 @@ func runC02(r *Run) {
 				b := in.Block()
 				return in == b.Instrs[0] && b != lb && dominates(b, lb) && len(b.Preds) > 1
 			}}.Search()
-			r.Check(w == nil, "R3", fmt.Sprintf("%s#every-dirty-account-written-%d", fnID(commit), i+1), P.Pos(instrPos(l)), "each dirty object reaches SetAccount or DeleteAccount",
+			r.Check(w == nil, "R3", fmt.Sprintf("%s#every-dirty-account-written-%d", commitInstID, i+1), P.Pos(instrPos(l)), "each dirty object reaches SetAccount or DeleteAccount",
 				"StateDB.Commit can skip a journal-dirty account (no SetAccount/DeleteAccount on some path): because precompiles flush with Commit in the middle of a transaction, a skipped write leaves the bank balance out of sync with the EVM view and the difference is minted or burned later", P.witness(w)...)
 		}
 	} else {
